@@ -295,7 +295,7 @@ def exec_op(c, st, alt):
         raise NotImplementedError("opcode %d" % c)
 
 
-def run(tokens, max_steps=100000):
+def run(tokens, max_steps=100000, max_elem=None):
     """-> {"ok": bool, "trace": [(stack, alt, token)...] (one entry per successful step), "fail_token": token or None, "returned": bool}
     Step accounting mirrors the unit the library steps by: every executed opcode / push is one step, an executed IF/NOTIF is one step,
     ELSE/ENDIF and anything in an untaken branch are zero steps."""
@@ -345,7 +345,7 @@ def run(tokens, max_steps=100000):
                 st.append(t[-1])
         except ScriptFail:
             return {"ok": False, "trace": trace, "fail_token": t, "returned": False}
-        if st and len(st[-1]) > MAX_ELEM:
+        if st and len(st[-1]) > (MAX_ELEM if max_elem is None else max_elem):
             raise OutOfScope("element size")
         trace.append((list(st), list(alt), t))
         if len(trace) > max_steps:
